@@ -31,6 +31,24 @@ def public_attrs(msg):
     return [(k, v) for k, v in vars(msg).items() if not k.startswith("_")]
 
 
+def scribble(msg):
+    """Edit in place every mutable value the library handed out with a message
+    (array attributes are Python lists).  The caller owns them: doing so must not
+    change what the library returns next.  -> number of values edited."""
+    n = 0
+    for _k, v in list(vars(msg).items()):
+        if isinstance(v, list) and v:
+            v.reverse()
+            v[0] = 201
+            v.append(77)
+            del v[1:3]
+            n += 1
+        elif isinstance(v, bytearray) and v:
+            v[0] ^= 0xFF
+            n += 1
+    return n
+
+
 def base_name(attr):
     """Strip the _NN group suffixes (digits only) from an attribute name."""
     parts = attr.split("_")
